@@ -33,6 +33,12 @@ pub fn current_worker_ordinal() -> ThreadId {
     ordinal
 }
 
+/// Verification hook (feature `verif`): set the calling thread's worker ordinal.
+#[cfg(feature = "verif")]
+pub(crate) fn verif_set_worker_ordinal(ordinal: ThreadId) {
+    WORKER_ORDINAL.with(|x| x.store(ordinal, Ordering::SeqCst));
+}
+
 /// The struct has one instance per worker, but is shared between workers via the scheduler
 /// instance.  This structure is used for communication between workers, e.g. adding designated
 /// work packets, stealing work packets from other workers, and collecting per-worker statistics.
